@@ -5,6 +5,19 @@ COMMON_NOTE = ("Trusted base: Lean 4.33 kernel; axioms ⊆ {propext, Classical.c
                "generated tables (harness/gen_tables.py). ")
 
 CLAIMED = {
+    "C15": {
+        "text": "Theorems (Lean, unbounded): wf_step / wf_history — every committed operation (append or delete commit with or without expiry, "
+                "expiry alone, snapshot deletion, any retention value, any metadata-log bound, any — also out-of-order or equal — timestamps) "
+                "preserves: current ∈ retained or table empty; ids distinct; every parent a retained, strictly older TRUE ancestor (ghost "
+                "history) or nothing; sequence numbers ≤ last and strictly increasing in commit order; snapshot log ⊆ retained in commit order; "
+                "lifted by induction to every history. repoint_correct for every forest incl. cycles/dangling parents; current_never_expired; "
+                "mlog_bounded; rewrite_preserves_origin + delete-exactness; last_seq_monotone. Correspondence: the real repoint / retention / "
+                "expiry / delete_snapshot / metadata-log code vs the model on all forests ≤3 (4 sampled) and on whole real-table histories "
+                "step by step; an independent invariant checker reads the JSON and manifests after every step.",
+        "design_ref": "§6 C15",
+        "note": "Snapshot ids assumed fresh (random 63-bit ids). Manifest-rewrite model is at entry level; Avro encoding observed via the independent reader.",
+        "technique": "Lean 4 invariant by induction over operations (WF) + algebraic theorems; model/implementation correspondence on histories",
+    },
     "C05": {
         "text": "Theorems (Lean, unbounded, over arbitrary strings): norm_agrees / norm_agrees_abs — for every table-location spelling the "
                 "listed form, the Iceberg-style form and the absolute form of a library file normalise to the same path; gc_safe — for every "
